@@ -202,6 +202,34 @@ impl Property for C15 {
             out.fail("c15:rerun-differs", "iterating the test a second time (same script, same seed) gave different items");
             return out;
         }
+        // A second driver that lists its outputs in another order (same answers): a TestCase that has been iterated
+        // before must behave like one parsed and bound afresh - behaviour is a function of text, signal list and the
+        // driver's responses, nothing learnt from an earlier driver may stick to the TestCase.
+        if spec.layout.len() >= 2 && base.ctor.is_none() {
+            let mut spec2 = spec.clone();
+            spec2.layout.rotate_left(1);
+            if let Ok(Ok(p)) = parse(&text) {
+                if let Ok(Ok(fresh_tc)) = guarded(|| p.with_signals(to_signals(&built.sigs))) {
+                    out.class("second-driver-with-another-output-order");
+                    let fresh = run_real(&fresh_tc, &built.sigs, &spec2, &opts);
+                    let used = run_real(tc, &built.sigs, &spec2, &opts);
+                    if used.ctor != fresh.ctor || used.items != fresh.items {
+                        let k = used.items.iter().zip(fresh.items.iter()).position(|(a, b)| a != b).unwrap_or(used.items.len().min(fresh.items.len()));
+                        out.fail(
+                            "c15:earlier-driver-sticks",
+                            format!(
+                                "a driver listing its outputs in another order: the TestCase that had been iterated before gives ctor {:?}, item {k} = {:?}; a TestCase parsed and bound afresh gives ctor {:?}, item {k} = {:?}",
+                                used.ctor.as_ref().map(|c| c.short()),
+                                used.items.get(k).map(|x| x.short()),
+                                fresh.ctor.as_ref().map(|c| c.short()),
+                                fresh.items.get(k).map(|x| x.short())
+                            ),
+                        );
+                        return out;
+                    }
+                }
+            }
+        }
         let mut interleaved_rows = 0;
         if base.ctor.is_none() {
             digital_test_runner::verif_hooks::set_seed_override(Some(seed));
